@@ -47,12 +47,34 @@ def nstacks_of(case):
     return int(case.get("stacks", 1))
 
 
-def model_line(flags, procs, sched, nstacks=1):
-    ps = ";".join("%d,%s,%s,%d,%s" % (p["pid"], p["kind"], "-" if p.get("root") is None else p["root"],
-                                      p.get("ntry", 2), ".".join(str(k) for k in (p.get("path") or [0])))
+def enc_name(x):
+    """a file or login name as both sides write it: percent-encoded bytes"""
+    return common.enc(x.encode("utf-8"))
+
+
+def own_name(p):
+    return enc_name(c09_sched.lock_file_name(p))
+
+
+def junk_of(case):
+    j = [list(x) for x in (case.get("junk") or [])]
+    return j + [[] for _ in range(nstacks_of(case) - len(j))]
+
+
+def model_line(flags, procs, sched, nstacks=1, junk=()):
+    """the protocol over file names (Model/LockName.v): every process with its login name, the lock directories
+    with their foreign entries"""
+    ps = ";".join("%d,%s,%s,%d,%s,%s" % (p["pid"], p["kind"], "-" if p.get("root") is None else p["root"],
+                                         p.get("ntry", 2), ".".join(str(k) for k in (p.get("path") or [0])),
+                                         enc_name(p.get("user", c09_sched.DEFAULT_USER)))
                   for p in procs)
-    return "\t".join(["trace", "1" if flags[0] else "0", "1" if flags[1] else "0", str(nstacks), ps,
-                      ",".join("%d:%d" % (a, b) for a, b in sched)])
+    return "\t".join(["ntrace", "1" if flags[0] else "0", "1" if flags[1] else "0", str(nstacks), ps,
+                      ",".join("%d:%d" % (a, b) for a, b in sched),
+                      "/".join(",".join(enc_name(n) for n in names) for names in junk)])
+
+
+def case_line(flags, c, sched):
+    return model_line(flags, c["procs"], sched, nstacks_of(c), junk_of(c))
 
 
 def parse_model(line, procs):
@@ -66,7 +88,7 @@ def parse_model(line, procs):
         d, fs, ps, ok = st.split("|")
         files = []
         for per in fs.split("/"):
-            files.append(",".join("%s%d" % (kinds[x], x) for x in sorted(int(x) for x in per.split(",") if x)))
+            files.append(",".join(sorted(x for x in per.split(",") if x)))
         ops = []
         for e in ps.split(","):
             pid, loc, _i, n, j = e.split(":")
@@ -76,7 +98,8 @@ def parse_model(line, procs):
                 w = int(j) if loc.startswith(("LGive", "LUnw")) else int(n)
                 k = paths[pid][w] if w < len(paths[pid]) else None
                 op += "" if k == 0 else "@%s" % k
-            ops.append("%d:%s" % (pid, op))
+            ops.append((pid, "%d:%s" % (pid, op)))
+        ops = [x for _, x in sorted(ops)]
         canon = "%s|%s|%s" % ("".join("D" if x == "1" else "-" for x in d), "/".join(files), ",".join(ops))
         out.append((canon, st, ok == "1"))
     return out
@@ -95,7 +118,7 @@ def ops_of(canon):
 
 
 def files_of(canon):
-    """per stack, the list of lock files as kind+pid"""
+    """per stack, the names in the lock directory (percent-encoded)"""
     return [[x for x in per.split(",") if x] for per in canon.split("|")[1].split("/")]
 
 
@@ -116,19 +139,27 @@ def mutex_violation(procs, canon):
     return None
 
 
-def residue(canon):
-    """every process has ended and a lock directory is still there"""
+def residue(case, canon):
+    """every process has ended and something of theirs is still there: an entry that was not in the lock directory
+    before anybody ran, or a lock directory that was not there (foreign entries are nobody's to remove: a directory
+    that held some from the start may stay, with them)"""
+    if not all(op in TERMINAL for op in ops_of(canon).values()):
+        return False
     d = canon.split("|")[0]
-    return all(op in TERMINAL for op in ops_of(canon).values()) and ("D" in d or any(files_of(canon)))
+    for k, (fl, jk) in enumerate(zip(files_of(canon), junk_of(case))):
+        foreign = set(enc_name(n) for n in jk)
+        if any(f not in foreign for f in fl) or (d[k] == "D" and not jk):
+            return True
+    return False
 
 
 def ended_owner(procs, canon):
     """(pid, stack) of a process that has ended (done, failed or crashed) and still has a lock file, or None"""
-    kinds = kinds_of(procs)
+    names = {p["pid"]: own_name(p) for p in procs}
     for pid, op in sorted(ops_of(canon).items()):
         if op in TERMINAL:
             for k, fl in enumerate(files_of(canon)):
-                if kinds[pid] + str(pid) in fl:
+                if names[pid] in fl:
                     return (pid, k, op)
     return None
 
@@ -136,10 +167,11 @@ def ended_owner(procs, canon):
 def window(procs, sched, trace, k, pair):
     """which check-then-act window of takeLocks the violation at trace[k] went through (signature of D10)"""
     kinds = kinds_of(procs)
+    names = {pr["pid"]: own_name(pr) for pr in procs}
     p, q = pair
     files = [x for fl in files_of(trace[k]) for x in fl]
     for x in pair:
-        if kinds[x] + str(x) not in files:
+        if names[x] not in files:
             return "K3"                 # holds without a lock file: the directory vanished before os.path.exists
     if kinds[p] == "E" and kinds[q] == "E":
         return "K1-siblings"            # both passed the listing of all lockers before either created its file
@@ -177,16 +209,105 @@ def shape_of(c):
 
 
 def small_case(c, sched):
-    return {"mode": "lock", "stacks": nstacks_of(c), "procs": c["procs"], "schedule": [list(x) for x in sched],
-            "drain": False}
+    out = {"mode": "lock", "stacks": nstacks_of(c), "procs": c["procs"], "schedule": [list(x) for x in sched],
+           "drain": False}
+    if any(junk_of(c)):
+        out["junk"] = junk_of(c)
+    return out
+
+
+# ---- the file-name layer: classes of login names, of pids and of foreign entries (for the histogram)
+
+USERS = {
+    "word": ["root", "eups", "builder_1"],
+    "dotted": ["john.doe", "j.r.r.tolkien"],
+    "dashed": ["www-data", "svc-build"],
+    "realm": ["first.last@realm", "alice@EXAMPLE.ORG"],
+    "digit-tail": ["u.5", "ops.2024"],             # the name itself ends like a lock-file name does
+    "numeric": ["1000"],
+    "kind-like": ["exclusive", "shared-x"],        # a login name that reads like a lock type
+    "punct": ["John Doe", "a+b", "o'neil", "d$"],
+    "non-ascii": ["j\u00f6rg"],
+}
+USER_CLASS = {u: cl for cl, us in USERS.items() for u in us}
+USER_CLASS[c09_sched.DEFAULT_USER] = "word"
+
+FOREIGN = {
+    "no-parse": ["README", "exclusive.bak", "exclusive-root.12~", "shared-root", "exclusive-.5", "lock-root.77",
+                 "exclusive-a.b", "shared-john.doe"],
+    "hidden": [".nfs000001", ".exclusive-root.5"],
+    "stale-shared": ["shared-ghost.4194304", "shared-bob.007"],       # a lock file of a process that died
+    "stale-exclusive": ["exclusive-ghost.4000000"],
+}
+FOREIGN_CLASS = {n: cl for cl, ns in FOREIGN.items() for n in ns}
+
+# pids as the kernel hands them out: any width, one the prefix or the suffix of another
+PID_FAMILIES = [[7, 71, 717], [12, 123, 1234], [5, 45, 345], [1, 10, 100], [9, 99, 999], [2, 20, 2020]]
+
+
+def gen_pids(rng, n):
+    if rng.random() < 0.5:
+        fam = list(rng.choice(PID_FAMILIES))
+        rng.shuffle(fam)
+        return fam[:n]
+    out = []
+    while len(out) < n:
+        # (the extracted model counts in unary: pids of four and five digits are kept rare for the time they cost)
+        w = rng.choice([1, 2, 2, 3, 3, 3, 3, 3, 3, 4])
+        x = rng.randrange(10 ** (w - 1), 10 ** w) if rng.random() < 0.99 else rng.randrange(10000, 32768)
+        if x not in out:
+            out.append(x)
+    return out
+
+
+def gen_users(rng, n):
+    if rng.random() < 0.25:                        # everybody is the same user
+        u = rng.choice(USERS[rng.choice(sorted(USERS))])
+        return [u] * n
+    return [rng.choice(USERS[rng.choice(sorted(USERS))]) for _ in range(n)]
+
+
+def gen_junk(rng, nstacks):
+    out = []
+    for _ in range(nstacks):
+        names = []
+        if rng.random() < 0.6:
+            for _ in range(rng.choice([1, 1, 2])):
+                cl = rng.choice(["no-parse", "no-parse", "no-parse", "hidden", "hidden", "stale-shared", "stale-shared",
+                                 "stale-exclusive"])
+                nm = rng.choice(FOREIGN[cl])
+                if nm not in names:
+                    names.append(nm)
+        out.append(names)
+    return out if any(out) else []
+
+
+def rename(case, pids):
+    """the case with the pids 1, 2, 3 ... replaced by the given ones"""
+    m = {i + 1: x for i, x in enumerate(pids)}
+    for p in case["procs"]:
+        p["pid"] = m[p["pid"]]
+        if p.get("root") is not None:
+            p["root"] = m[p["root"]]
+    case["schedule"] = [[m[x[0]], x[1]] for x in case["schedule"]]
+    return case
+
+
+def name_layer_histogram(ctx, c):
+    for p in c["procs"]:
+        ctx.bump("user/" + USER_CLASS.get(p.get("user", c09_sched.DEFAULT_USER), "other"))
+        ctx.bump("pid-width/%d" % len(str(p["pid"])))
+    ctx.bump("users-per-run/%d" % len(set(p.get("user", c09_sched.DEFAULT_USER) for p in c["procs"])))
+    for names in junk_of(c):
+        for n in names:
+            ctx.bump("foreign/" + FOREIGN_CLASS.get(n, "other"))
 
 
 def check_cases(ctx, cases, key, validate=True):
     """run implementation and model on the cases, compare step by step, evaluate the oracle.  Returns the
     list of (effective schedule, model states) per case."""
     ires = run_impl(cases)
-    lines = [model_line(REPAIRED, c["procs"], [tuple(x) for x in r["schedule"]], nstacks_of(c))
-             for c, r in zip(cases, ires)]
+    lines = [case_line(REPAIRED, c, [tuple(x) for x in r["schedule"]]) for c, r in zip(cases, ires)]
     mres = [parse_model(l, c["procs"]) for c, l in zip(cases, ctx.model(lines))]
     redo = []
     results = []
@@ -196,6 +317,7 @@ def check_cases(ctx, cases, key, validate=True):
         busy = max(sum(1 for op in ops_of(t).values() if op not in TERMINAL and not op.startswith("mkdir"))
                    for t in trace)
         ctx.count(1, key=key + "/" + shape_of(c), nontrivial=lines[idx] if busy >= 2 else None)
+        name_layer_histogram(ctx, c)
         # which branches of the model this trace exercises (evidence: every arrow validated at least once)
         for k, (pid, _ch) in enumerate(sched):
             if k + 1 < len(m):
@@ -230,18 +352,17 @@ def check_cases(ctx, cases, key, validate=True):
                          observed={"state": t, "process": eo[0], "stack": eo[1], "ended": eo[2], "step": k},
                          what="process %d has %s but its lock file on stack %d is still there" % (eo[0], eo[2], eo[1]))
                 break
-        if residue(trace[-1]):
+        if residue(c, trace[-1]):
             ctx.fail("residue", small_case(c, sched),
-                     expected="no lock directory once every process has finished", observed={"state": trace[-1]},
-                     what="lock directory left behind")
+                     expected="nothing of the processes left once every one of them has finished",
+                     observed={"state": trace[-1]}, what="lock directory or lock file left behind")
         results.append((sched, m))
     if redo:
         # does the implementation follow an earlier version of the protocol instead?  (diagnosis only)
         sub = redo[:200]
         alt = {}
         for name, flags in (("WITHOUT release-on-failure", NORELEASE), ("PINNED", PINNED)):
-            out = ctx.model([model_line(flags, cases[i]["procs"], [tuple(x) for x in ires[i]["schedule"]],
-                                        nstacks_of(cases[i])) for i, _ in sub])
+            out = ctx.model([case_line(flags, cases[i], [tuple(x) for x in ires[i]["schedule"]]) for i, _ in sub])
             for (i, _), pl in zip(sub, out):
                 pm = parse_model(pl, cases[i]["procs"])
                 tr = ires[i]["trace"]
@@ -264,9 +385,22 @@ TWO_STACK_THOROUGH = [("E01-E1", "E", [0, 1], "E", [1]), ("S01-E10", "S", [0, 1]
                       ("E01-E01", "E", [0, 1], "E", [0, 1]), ("S01-S10", "S", [0, 1], "S", [1, 0])]
 
 
+# in the exhaustive configurations every updater is john.doe and every reader www-data (two processes of one kind
+# stay interchangeable), and the pids are 7, 71 and 717: each a prefix of the next
+XPIDS = [7, 71, 717]
+XUSER = {"E": "john.doe", "S": "www-data"}
+
+
+def xproc(i, kind, root=None, ntry=2, path=None):
+    p = {"pid": XPIDS[i], "kind": kind, "root": None if root is None else XPIDS[root], "ntry": ntry,
+         "user": XUSER[kind]}
+    if path is not None:
+        p["path"] = path
+    return p
+
+
 def procs2(k1, k2, child=False, ntry=2):
-    return [{"pid": 1, "kind": k1, "root": None, "ntry": ntry},
-            {"pid": 2, "kind": k2, "root": 1 if child else None, "ntry": ntry}]
+    return [xproc(0, k1, ntry=ntry), xproc(1, k2, root=0 if child else None, ntry=ntry)]
 
 
 def sym_key(raw, procs):
@@ -277,13 +411,16 @@ def sym_key(raw, procs):
     rooted = {p.get("root") for p in procs}
     for p in procs:
         if p["pid"] not in rooted:
-            cls.setdefault((p["kind"], p.get("root"), p.get("ntry", 2), tuple(p.get("path") or [0])), []).append(p["pid"])
+            cls.setdefault((p["kind"], p.get("root"), p.get("ntry", 2), tuple(p.get("path") or [0]),
+                            p.get("user", c09_sched.DEFAULT_USER)), []).append(p["pid"])
     for group in cls.values():
         if len(group) == 2:
             a, b = group
             sw = {a: b, b: a}
+            names = {p["pid"]: own_name(p) for p in procs}
+            swn = {names[a]: names[b], names[b]: names[a]}
             d, fs, ps, ok = raw.split("|")
-            fs2 = "/".join(",".join(str(sw.get(int(x), int(x))) for x in per.split(",") if x) for per in fs.split("/"))
+            fs2 = "/".join(",".join(swn.get(x, x) for x in per.split(",") if x) for per in fs.split("/"))
             ent = {}
             for e in ps.split(","):
                 f = e.split(":")
@@ -295,7 +432,7 @@ def sym_key(raw, procs):
 
 def listing_size(raw, procs, p):
     """number of exclusive lock files on the stack process p is working on (for the choice of listing order)"""
-    kinds, paths = kinds_of(procs), paths_of(procs)
+    paths = paths_of(procs)
     for e in raw.split("|")[2].split(","):
         f = e.split(":")
         if int(f[0]) == p:
@@ -304,7 +441,7 @@ def listing_size(raw, procs, p):
                 return 0
             per = raw.split("|")[1].split("/")
             k = paths[p][w]
-            return sum(1 for x in per[k].split(",") if x and kinds[int(x)] == "E") if k < len(per) else 0
+            return sum(1 for x in per[k].split(",") if x.startswith("exclusive-")) if k < len(per) else 0
     return 0
 
 
@@ -312,7 +449,7 @@ def explore(ctx, configs, max_states, deadline=None):
     """Breadth-first over the states of the model, all configurations (label, procs, nstacks) in lock step; every
     transition found is replayed on the implementation (from empty stacks, along the representative schedule of
     its source state) and compared.  Returns True when every state space was exhausted."""
-    inits = ctx.model([model_line(REPAIRED, procs, [], ns) for _, procs, ns in configs])
+    inits = ctx.model([model_line(REPAIRED, procs, [], ns, [[] for _ in range(ns)]) for _, procs, ns in configs])
     book = []
     for (label, procs, ns), line in zip(configs, inits):
         init = parse_model(line, procs)[0]
@@ -385,7 +522,59 @@ def gen_random(rng):
         p = rng.choice([1, 2, 3])
         for _ in range(rng.choice([1, 1, 2, 3, 5])):
             sched.append([p, rng.choice([0, 0, 0, 1, 2])])
-    return {"mode": "lock", "stacks": stacks, "procs": procs, "schedule": sched, "drain": True, "shape": shape}
+    case = {"mode": "lock", "stacks": stacks, "procs": procs, "schedule": sched, "drain": True, "shape": shape}
+    # the file-name layer: a login name per process, pids of any width, foreign entries in the lock directories
+    for p, u in zip(procs, gen_users(rng, 3)):
+        p["user"] = u
+    rename(case, gen_pids(rng, 3))
+    if rng.random() < 0.3:
+        junk = gen_junk(rng, stacks)
+        if junk:
+            case["junk"] = junk
+    return case
+
+
+# ------------------------------------------------------------------ directed families of the file-name layer
+
+def hold_then_rival(holder, rival, junk=None):
+    """the holder takes its lock undisturbed; then the rival tries; then everybody finishes"""
+    c = {"mode": "lock", "stacks": 1, "procs": [holder, rival],
+         "schedule": [[holder["pid"], 0]] * (5 if junk else 4) + [[rival["pid"], 0]] * 8, "drain": True}
+    if junk:
+        c["junk"] = [list(junk)]
+    return c
+
+
+def gen_names(rng):
+    """every login name of the pool as the holder of a lock of either kind, against a rival of either kind under a
+    name of another class, as strangers and as parent and child; pids of all widths"""
+    out = []
+    users = [u for cl in sorted(USERS) for u in USERS[cl]]
+    for i, u in enumerate(users):
+        for hk, rk in ("ES", "SE", "EE", "SS"):
+            v = users[(i + 1 + rng.randrange(len(users) - 1)) % len(users)] if rng.random() < 0.8 else u
+            a, b = gen_pids(rng, 2)
+            child = rng.random() < 0.25
+            holder = {"pid": a, "kind": hk, "root": None, "ntry": 1, "user": u}
+            rival = {"pid": b, "kind": rk, "root": a if child else None, "ntry": rng.choice([1, 2]), "user": v}
+            out.append(hold_then_rival(holder, rival))
+    return out
+
+
+def gen_foreign(rng):
+    """every foreign entry of the pool in the lock directory from the start: a process alone, and a holder with a
+    rival, of all kinds"""
+    out = []
+    for cl in sorted(FOREIGN):
+        for nm in FOREIGN[cl]:
+            for hk, rk in ("ES", "SE", "SS", "EE"):
+                a, b = gen_pids(rng, 2)
+                u, v = gen_users(rng, 2)
+                extra = [rng.choice(FOREIGN["no-parse"])] if rng.random() < 0.3 else []
+                out.append(hold_then_rival({"pid": a, "kind": hk, "root": None, "ntry": 1, "user": u},
+                                           {"pid": b, "kind": rk, "root": None, "ntry": 2, "user": v},
+                                           junk=[nm] + [x for x in extra if x != nm]))
+    return out
 
 
 # ------------------------------------------------------------------ which command takes which lock
@@ -554,7 +743,15 @@ def setup_ctx(ctx):
                 "opposite order) and of three processes SEE with one attempt each, explored breadth-first and memoised "
                 "on the model state (up to renaming of interchangeable processes), every transition replayed on the "
                 "real lock.py; plus random burst schedules of three processes on 1-3 stacks (flat, child, siblings; "
-                "budgets 1-3; paths in orders of their own; random directory order) run to completion.  A schedule "
+                "budgets 1-3; paths in orders of their own; random directory order) run to completion.  File-name layer: "
+                "every process has a login name of its own (classes word, dotted, dashed, realm, digit-tail, numeric, "
+                "kind-like, punct, non-ascii; one to three different names per run; in the exhaustive configurations "
+                "updaters are john.doe and readers www-data), pids of one to five digits, families in which one pid is "
+                "a prefix of another (7 71 717), and in the random and directed streams foreign entries in the lock "
+                "directories from the start (names that do not parse, hidden files, lock files of dead processes); "
+                "the directory listings are compared name by name with Model/LockName.v; directed family `names`: "
+                "every login name of the pool as holder against a rival of each kind, strangers and parent/child, "
+                "and every foreign entry of the pool under every pair of kinds.  A schedule "
                 "is non-trivial when at some point two processes are inside takeLocks/giveLocks at once; distinct = "
                 "distinct (configuration, schedule).  Registration: every command of the two lists dispatched "
                 "through the real EupsCmd.run with takeLocks spied.")
@@ -563,6 +760,9 @@ def setup_ctx(ctx):
         "directory); a directory listing returns the entries present at the instant of the call",
         "harness/c09_sched.py: the proxies that stand in for os, glob and time inside eups.lock (one scheduling point "
         "per file-system call; directory listings presented in creation order rotated by the choice)",
+        "harness/c09_sched.py: utils.getUserName answers with the login name of the calling logical process; foreign "
+        "entries are created before the first step; entries of the form <type>-<user>.<pid> are the ones rotated by the "
+        "choice of listing order",
         "harness/translate_locks.py: python ast -> coq/Generated/Locks.v, fail-closed; cross-checked every run against "
         "the running cmd module and the spied takeLocks calls",
     ]
@@ -571,6 +771,10 @@ def setup_ctx(ctx):
         "only EEXIST failures of mkdir are modelled (EACCES / read-only stacks, for which takeLocks deliberately "
         "proceeds unlocked, are outside the property)",
         "signals, atexit handlers, hooks.config.site.lockDirectoryBase relocation, NFS and pid reuse are not modelled",
+        "login names are not empty and hold no newline and no slash (users_ok); foreign entries are plain files, never "
+        "sub-directories; pids above 32767 occur only as the pid field of stale lock files (the extracted model counts "
+        "in unary); mutex_named is proved from empty lock directories - with foreign entries the name-level model is "
+        "tied to the code by the step-by-step comparison and by foreign_entries_invisible only",
         "processes die only by the exceptions of the protocol itself, never between two calls (a killed process "
         "leaves its lock file; eups admin clearLocks is the remedy the code base provides)",
     ]
@@ -611,6 +815,11 @@ def run(ctx):
         for c in corpus[:2]:
             ctx.sample(c)
     lap("corpus")
+    # 3b. the file-name layer, directed: login names of every class, pids of every width, foreign entries
+    named = gen_names(ctx.rng) + gen_foreign(ctx.rng)
+    ctx.sample(named[5])
+    check_cases(ctx, named, "names")
+    lap("names")
     # 4. exhaustive two-process exploration
     cap = ctx.size(20000, 400000)
     configs = []
@@ -621,22 +830,20 @@ def run(ctx):
     # two stacks: a process that locks both, in either order, against one that locks the second only or both in
     # the opposite order (takeLocks fails on its second stack after having locked its first)
     for label, k1, path1, k2, path2 in TWO_STACK_QUICK + (TWO_STACK_THOROUGH if ctx.tier == "thorough" else []):
-        configs.append((label, [{"pid": 1, "kind": k1, "root": None, "ntry": 2, "path": path1},
-                                {"pid": 2, "kind": k2, "root": None, "ntry": 2, "path": path2}], 2))
+        configs.append((label, [xproc(0, k1, path=path1), xproc(1, k2, path=path2)], 2))
     # three processes, one attempt each: the smallest setting in which a process can come and go while another
     # is parked between two of its calls (windows K2 and K3 need a third party)
-    configs.append(("SEE-ntry1", [{"pid": i + 1, "kind": k, "root": None, "ntry": 1} for i, k in enumerate("SEE")], 1))
+    configs.append(("SEE-ntry1", [xproc(i, k, ntry=1) for i, k in enumerate("SEE")], 1))
     if ctx.tier == "thorough":
         for ks in ("SSE", "SSS", "EEE"):
-            configs.append((ks + "-ntry1", [{"pid": i + 1, "kind": k, "root": None, "ntry": 1} for i, k in enumerate(ks)], 1))
-        configs.append(("E+siblings-ES-ntry1",
-                        [{"pid": 1, "kind": "E", "root": None, "ntry": 1}, {"pid": 2, "kind": "E", "root": 1, "ntry": 1},
-                         {"pid": 3, "kind": "S", "root": 1, "ntry": 1}], 1))
-    complete = explore(ctx, configs, cap, deadline=(ctx.t0 + 70) if ctx.tier == "quick" else None)
+            configs.append((ks + "-ntry1", [xproc(i, k, ntry=1) for i, k in enumerate(ks)], 1))
+        configs.append(("E+siblings-ES-ntry1", [xproc(0, "E", ntry=1), xproc(1, "E", root=0, ntry=1),
+                                                xproc(2, "S", root=0, ntry=1)], 1))
+    complete = explore(ctx, configs, cap, deadline=(ctx.t0 + 42) if ctx.tier == "quick" else None)
     ctx.exhaustive = complete
     lap("exhaustive")
     # 5. random three-process schedules
-    n = ctx.size(2000, 15000)
+    n = ctx.size(1600, 15000)
     cases = [gen_random(ctx.rng) for _ in range(n)]
     ctx.sample(cases[0])
     check_cases(ctx, cases, "random3")
